@@ -517,7 +517,7 @@ func (g *Gen) Value(t *Ty, tag string, v reflect.Value, valid bool) {
 				}
 				if want {
 					chosen[sel] = true
-					p := reflect.New(f.T.GoType())
+					p := reflect.New(fv.Type().Elem())
 					g.Value(f.T, f.Tag, p.Elem(), valid)
 					fv.Set(p)
 				}
@@ -604,4 +604,44 @@ func (g *Gen) pickLen(min, max uint64, valid bool) uint64 {
 		}
 	}
 	return n
+}
+
+// FromGoType derives the descriptor of a real Go type (same mapping as the reflectdump
+// translator), so values of the repository's own wire types can be generated and rendered.
+func FromGoType(t reflect.Type) *Ty {
+	switch t {
+	case u8T:
+		return &Ty{Kind: "u8"}
+	case u16T:
+		return &Ty{Kind: "u16"}
+	case u24T:
+		return &Ty{Kind: "u24"}
+	case u32T:
+		return &Ty{Kind: "u32"}
+	case u64T:
+		return &Ty{Kind: "u64"}
+	}
+	switch t.Kind() {
+	case reflect.Uint64:
+		return &Ty{Kind: "enum"}
+	case reflect.Array:
+		return &Ty{Kind: "arr", N: t.Len()}
+	case reflect.Slice:
+		if t.Elem().Kind() == reflect.Uint8 {
+			return &Ty{Kind: "bytes"}
+		}
+		return &Ty{Kind: "vec", Elem: FromGoType(t.Elem())}
+	case reflect.Struct:
+		st := &Ty{Kind: "struct"}
+		for i := 0; i < t.NumField(); i++ {
+			f := t.Field(i)
+			ft, ptr := f.Type, false
+			if ft.Kind() == reflect.Ptr {
+				ft, ptr = ft.Elem(), true
+			}
+			st.Fields = append(st.Fields, Field{Name: f.Name, Tag: f.Tag.Get("tls"), Ptr: ptr, T: FromGoType(ft)})
+		}
+		return st
+	}
+	panic("unsupported Go type " + t.String())
 }
